@@ -116,6 +116,15 @@ Tri ==
        \* with the construction-direction flag flipped
        /\ Chk(R.hops1 = [k \in 1..N |-> N - k], "reverse:hop-order:ninf=" \o ToString(NI))
        /\ Chk(R.infs1 = [j \in 1..NI |-> NI - j], "reverse:info-order:ninf=" \o ToString(NI))
+       \* field accessors of the raw representation at every index: hop i / info j is the i-th / j-th field of
+       \* the decoded representation; setting it changes exactly that field (and nothing else, seen through a
+       \* full decode); one past the end nothing is written
+       /\ Chk(R.gh = [k \in 1..N |-> k - 1] /\ R.ghd = N, "raw:gethopfield-is-not-the-decoded-hop:ninf=" \o ToString(NI))
+       /\ Chk(R.gi = [j \in 1..NI |-> j - 1] /\ R.gid = NI, "raw:getinfofield-is-not-the-decoded-info:ninf=" \o ToString(NI))
+       /\ Chk(R.sh = [k \in 1..N |-> k - 1], "raw:sethopfield-does-not-set-exactly-that-hop:ninf=" \o ToString(NI))
+       /\ Chk(R.si = [j \in 1..NI |-> j - 1], "raw:setinfofield-does-not-set-exactly-that-info:ninf=" \o ToString(NI))
+       /\ Chk(R.oobchanged = 0, "raw:field-access-past-the-end-writes")
+       /\ Drift(R.ooberr = 4, "raw:field-access-past-the-end-accepted")
        /\ Chk(Len(R.cons1) = NI /\ Len(R.cons0) = NI /\
               \A j \in 1..NI : R.cons1[j] = 1 - R.cons0[NI + 1 - j], "reverse:consdir:ninf=" \o ToString(NI))
 
